@@ -542,7 +542,8 @@ def async_region(ctx, prog, c):
     ctx.solver_s += eng.solver_s
     q0 = eng.queries
     adv = -(-c["limit"] // c["block"]) * c["block"]
-    _G.update({"reg": reg, "mains": mains, "prog": prog, "validate_k": min(N, c["min_async"] // adv + 2)})
+    vk = c["min_async"] // adv + 2
+    _G.update({"reg": reg, "mains": mains, "prog": prog, "validate_k": vk if vk <= N else None})
     order = sorted(range(len(mains)), key=lambda i: -len(mains[i].events))
     procs = min(16, len(mains))
     with mp.get_context("fork").Pool(procs) as pool:
@@ -613,6 +614,8 @@ def run_async(ctx, prog, c):
         ctx.log("translator validation (benign schedule forced natively): %s" % textv)
         if not okv:
             ctx.report_inconclusive("Q1: a complete schedule of the success scenario predicted by the model could not be followed by the real code, or the result was wrong: %s" % textv)
+    elif _G.get("validate_k") is None:
+        ctx.extra["translator_validation"] = {"skipped": "a document long enough for the async branch needs more index buffers than the bound of this tier"}
     else:
         ctx.report_inconclusive("Q1: no success scenario available for translator validation")
     ctx.states += nscen
